@@ -376,6 +376,11 @@ func (ts *TestScript) cmdSkip(neg bool, args []string) {
 	}
 	ts.cmdWait(false, nil)
 
+	if ts.failed {
+		// An earlier command failed and the script carried on because of
+		// ContinueOnError: the run has failed and must not be reported as skipped.
+		ts.t.FailNow()
+	}
 	if len(args) == 1 {
 		ts.t.Skip(args[0])
 	}
